@@ -59,6 +59,80 @@ def model_reply(services: dict[int, dict[int, Any]], session: int, sw: dict[str,
     return "delegated", None
 
 
+def _transcript(plan: dict[str, Any], sw: dict[str, bool]) -> list[tuple[bytes, bytes | None, tuple[int, Any], int] | str]:
+    """The plan's history against a fresh server with the given switches (direct mode, same clock, same source of fresh seeds):
+    per op (request, reply, server state afterwards, session before)."""
+    seams = Seams()
+    out_: list[Any] = []
+
+    async def main(loop: Any) -> Any:
+        seams.set(server_mod, "time", lambda: EPOCH + loop.time())
+        seed_unseeded_rng(seams, plan["net_seed"])
+        try:
+            server = RandomUDSServer(plan["ecu_seed"], RandomUDSServer.RandomnessParameters(**plan["params"]), UDSServer.Behavior(**sw))
+            await server.setup()
+        except Exception:  # noqa: BLE001
+            return None
+        st = UDSServerTransport(server, TargetURI("tcp://h:1"))
+        last_seed: bytes | None = None
+        for op in plan["ops"]:
+            gap = op.get("gap", 0) or 0
+            if gap:
+                await asyncio.sleep(gap)
+            if "dyn" in op:
+                key = last_seed if last_seed is not None else b"\x00"
+                if op["wrong"]:
+                    key = bytes([key[0] ^ 0xFF]) + key[1:] if key else b"\x01"
+                pdu = bytes([0x27, op["sub"] | (0x80 if op["suppress"] else 0)]) + key
+            else:
+                pdu = bytes.fromhex(op["pdu"])
+            before = server.state.session
+            try:
+                reply, _ = await st.handle_request(pdu)
+            except Exception as e:  # noqa: BLE001
+                out_.append(f"raised {type(e).__name__}")
+                break
+            out_.append((pdu, reply, (server.state.session, server.state.security_access_level), before))
+            if reply is not None and len(reply) >= 2 and reply[0] == 0x67 and reply[1] % 2 == 1:
+                last_seed = reply[2:]
+        return None
+
+    try:
+        sim_run(main, vcap=20000.0, stepcap=3_000_000)
+    finally:
+        seams.restore()
+    return out_
+
+
+def _touches(off: list[str], services: dict[int, dict[int, Any]], session: int, pdu: bytes) -> bool:
+    """Could one of the switched-off behaviours have had a say in the all-on server's answer to this request?  (Over-approximation:
+    a True only ends the comparison of the twin runs.)"""
+    all_on = {s_: True for s_ in SWITCHES}
+    try:
+        parsable = not isinstance(service.UDSRequest.parse_dynamic(pdu), service.RawRequest)
+    except Exception:  # noqa: BLE001
+        parsable = False
+    if session not in services:
+        return True
+    kind, exact = model_reply(services, session, all_on, pdu, parsable)
+    sid = pdu[0]
+    if kind == "exact":
+        # one of the four negative-response rules answered: any of them being off may matter (first match wins)
+        return any(o in off for o in ("default_response_if_service_not_supported", "default_response_if_missing_sub_function",
+                                      "default_response_if_sub_function_not_supported", "default_response_if_incorrect_format"))
+    if "default_response_if_session_change" in off and sid == 0x10:
+        return True
+    if "default_response_if_session_read" in off and pdu[:1] == b"\x22" and b"\xf1\x86" in pdu:
+        return True
+    if "default_response_if_tester_present" in off and sid == 0x3E:
+        return True
+    if "default_response_if_suppress" in off and sid in SUBFUNC and len(pdu) >= 2 and pdu[1] & 0x80:
+        return True
+    if "default_response_if_none" in off:
+        return True  # whether the handler answers at all is not known from outside
+    return False
+
+
 def gen_history(rng: Any, services: dict[int, dict[int, Any]], n: int) -> list[dict[str, Any]]:
     sessions = sorted(services)
     all_sids = sorted({sid for sv in services.values() for sid in sv}) or [0x10]
@@ -166,7 +240,7 @@ class C13(Check):
         "wall clock of the server": "stub: epoch + virtual loop time",
     }
     shrink_lists = ["ops"]
-    quick_runs = 15000
+    quick_runs = 10000
     thorough_runs = 600000
     chunk = 100
 
@@ -450,6 +524,24 @@ class C13(Check):
             violation(res, "C13/liveness", f"C13/liveness:{out.kind}", f"run never finished: {out.pending}")
         elif out.kind == "exc":
             raise out.exc  # type: ignore[misc]
+        # ---- "disabling one behaviour only removes that rule": twin run with every behaviour enabled (same ECU, same history,
+        # same clock, same fresh seeds).  Until the first request in which a switched-off behaviour could have had a say, the two
+        # servers must give the same answers and be in the same state - whatever else (e.g. the inactivity timer) is involved.
+        off = [s_ for s_ in SWITCHES if not sw[s_]]
+        if off and not plan["stack"] and not res["violations"] and "services" in holder:
+            a_ = _transcript(plan, {s_: True for s_ in SWITCHES})
+            b_ = _transcript(plan, sw)
+            for n_, (x_, y_) in enumerate(zip(a_, b_)):
+                if isinstance(x_, str) or isinstance(y_, str):
+                    break
+                if _touches(off, holder["services"], x_[3], x_[0]):
+                    bump(res["probes"], "twin_runs_compared_up_to_the_first_request_of_a_disabled_rule")
+                    break
+                if x_[1:3] != y_[1:3]:
+                    violation(res, "C13/only-that-rule", f"C13/only-that-rule:differs-before-the-rule-applies:{'+'.join(o_.replace('default_response_if_', '') for o_ in off)}"[:110],
+                              f"op {n_} {x_[0].hex()}: with every behaviour enabled -> {x_[1].hex() if x_[1] else None}, state {x_[2]}; with {off} disabled -> {y_[1].hex() if y_[1] else None}, state {y_[2]} "
+                              f"although none of the disabled rules applies to any request so far")
+                    break
         shape = holder.get("shape", [])
         comp: list[str] = []
         for s in shape:
